@@ -462,14 +462,11 @@ func (r *Resolver) onStructLike(g, tg *Scope, name string, t *parser.Type, v *pa
 			return "", err
 		}
 
-		if NeedRedirect(f) {
-			if f.Type.Category.IsBaseType() {
-				// a trick to create pointers without temporary variables
-				val = fmt.Sprintf("(&struct{x %s}{%s}).x", typ, val)
-			}
-			if !strings.HasPrefix(val, "&") {
-				val = "&" + val
-			}
+		if NeedRedirect(f) && IsBaseType(f.Type) {
+			// a trick to create pointers without temporary variables;
+			// enums are constants too, and values of struct-likes (a
+			// literal or a reference to a constant) are pointers already
+			val = fmt.Sprintf("&(&struct{x %s}{%s}).x", typ, val)
 		}
 		kvs = append(kvs, fmt.Sprintf("%s: %s,", key, val))
 	}
